@@ -3,7 +3,7 @@
 From Coq Require Import List NArith ZArith Bool Arith Lia.
 From SK Require Import lib.Tok lib.LGraph lib.Mono.
 From SK Require model.C06_Model model.C11_Model.
-From SK Require Import model.C03_Model model.C05_Model proof.C05_Proof proof.C05_Glue proof.C05_Pipe proof.C05_Prep proof.C05_Comp proof.C05_Main proof.C05_Order proof.C05_Sub proof.C05_Set proof.C05_Result proof.C05_AllStrat proof.C05_PrepOrder proof.C05_Final proof.C05_Default proof.C05_Rewrite proof.C05_Capstone.
+From SK Require Import model.C03_Model model.C05_Model proof.C05_Proof proof.C05_Glue proof.C05_Pipe proof.C05_Prep proof.C05_Comp proof.C05_Main proof.C05_Order proof.C05_Sub proof.C05_Set proof.C05_Result proof.C05_AllStrat proof.C05_PrepOrder proof.C05_Final proof.C05_Default proof.C05_Rewrite proof.C05_Capstone proof.C05_Cap proof.C05_AnyCap.
 From SK Require Import lib.C06_Spec proof.C06_Comp proof.C06_Main.
 Import ListNotations.
 
@@ -349,3 +349,25 @@ Proof.
       try (vm_compute; reflexivity); try (apply HP; vm_compute; reflexivity).
     exact F.
 Qed.
+
+(** ** the embedding cap: the number of embeddings does not depend on the writing (halogen exchange on BrCCI written
+    backwards AND renumbered: the same number of embeddings either way), and the cap-free invariance theorem applied to the two writings
+    under a cap below (0: both searches capped, no result) and at (1) the number of embeddings *)
+Example cap_decision_nonvacuous :
+  C06_Model.lenN (enum_all hx_host (p_pat hx_p)) = C06_Model.lenN (enum_all hx_host2 (p_pat hx_p)) /\
+  C06_Model.lenN (enum_all hx_host_r2 (p_pat (relabel_prep sz_sg hx_p))) = C06_Model.lenN (enum_all hx_host (p_pat hx_p)) /\
+  (0 < C06_Model.lenN (enum_all hx_host (p_pat hx_p)))%N.
+Proof.
+  split; [apply enum_all_count_host_order; exact hx_same|].
+  split; [|vm_compute; reflexivity].
+  destruct hx_p as [rc l r fl pat] eqn:E. simpl.
+  apply (capped_invariant sz_sg sz_pi sz_sg_inj sz_pi_inj). exact hx_same_r.
+Qed.
+
+Example any_cap_nonvacuous :
+  side_okb0 (relabel sz_pi hx_host) (relabel_prep sz_sg hx_p) = true /\ side_okb0 hx_host_r2 (relabel_prep sz_sg hx_p) = true /\
+  length (@glued_of (thr_of (Some 0%N)) 0%N hx_host hx_p) = 0%nat /\
+  length (@glued_of (thr_of (Some 0%N)) 0%N hx_host_r2 (relabel_prep sz_sg hx_p)) = 0%nat /\
+  length (@glued_of (thr_of (Some 1%N)) 0%N hx_host hx_p) = 1%nat /\
+  length (@glued_of (thr_of (Some 1%N)) 0%N hx_host_r2 (relabel_prep sz_sg hx_p)) = 1%nat.
+Proof. repeat split; vm_compute; reflexivity. Qed.
